@@ -10,7 +10,10 @@ transferred here as a demonstration (the others transfer the same way, by rewrit
 
 * C01 — the generated parser accepts exactly the specification's grammar, and never panics (on no byte string:
   no index out of range, no nil dereference, no loop fuel exhaustion);
-* C18 — on a defective vector the generated parser returns exactly the documented error value.
+* C18 — on a defective vector the generated parser returns exactly the documented error value (every defect of
+  `Spec.Defect`, including the general "misplaced" `move i j`; v2.0 with the `afterEnv` restriction of finding F3),
+  and the unconditional header clause: every byte string not beginning with `CVSS:3.x/` (v3) / `CVSS:4.0` (v4.0)
+  gets ErrInvalidCVSSHeader from the generated parser, and only those.
 -/
 namespace ParseTie
 open Model GenParse
@@ -60,5 +63,28 @@ theorem C18_v40 (w : List Spec.Pair) (d : Spec.Defect) (s : Bytes) (e : Spec.Err
     (hw : ∃ s0, Spec.V4.Witness s0 w) (hd : d.apply .v40 w = some (s, e)) :
     GenP40.ParseVector s = .err ⟨e.1, e.2⟩ :=
   (ofGo_err_iff GenParse40.dec40 _ _).mp ((v40 s).trans (C18.v40 w d s e hw hd))
+theorem C18_v20_partial (buf : List Bytes) (hbuf : buf.length = 14) (w : List Spec.Pair) (d : Spec.Defect) (s : Bytes)
+    (e : Spec.ErrVal) (hw : ∃ s0, Spec.V2.Witness s0 w) (hd : d.apply .v20 w = some (s, e))
+    (hna : C18.V2.afterEnv w d = false) : GenP20.ParseVector buf s = .err ⟨e.1, e.2⟩ :=
+  (ofGo_err_iff GenParse20.dec20 _ _).mp ((v20 buf hbuf s).trans (C18.v20_partial w d s e hw hd hna))
+/-- v2.0 "misplaced" in general: no side condition -/
+theorem C18_v20_move (buf : List Bytes) (hbuf : buf.length = 14) (w : List Spec.Pair) (i j : Nat) (s : Bytes)
+    (e : Spec.ErrVal) (hw : ∃ s0, Spec.V2.Witness s0 w) (hd : (Spec.Defect.move i j).apply .v20 w = some (s, e)) :
+    GenP20.ParseVector buf s = .err eOrder :=
+  (ofGo_err_iff GenParse20.dec20 _ _).mp ((v20 buf hbuf s).trans (C18.v20_move w i j s e hw hd).1)
+
+/-! ### the header clause, for every byte string -/
+
+theorem C18_header31 (s : Bytes) : GenP31.ParseVector s = .err eHeader ↔ ¬ (Spec.V3.header31 ++ [47]) <+: s := by
+  rw [← ofGo_err_iff dec31, show ofGo dec31 (GenP31.ParseVector s) = parse31 s from v31 s]; exact C18.header31_iff s
+theorem C18_header30 (s : Bytes) : GenP30.ParseVector s = .err eHeader ↔ ¬ (Spec.V3.header30 ++ [47]) <+: s := by
+  rw [← ofGo_err_iff dec30, show ofGo dec30 (GenP30.ParseVector s) = parse30 s from v30 s]; exact C18.header30_iff s
+theorem C18_header40 (s : Bytes) : GenP40.ParseVector s = .err eHeader ↔ ¬ Spec.V4.header <+: s := by
+  rw [← ofGo_err_iff GenParse40.dec40, show ofGo GenParse40.dec40 (GenP40.ParseVector s) = parse40 s from v40 s]
+  exact C18.header40_iff s
+/-- `CVSS:4.0` followed directly by a byte other than `/`: ErrInvalidMetricValue from the generated parser -/
+theorem C18_v40_header_then_junk (c : Nat) (r : Bytes) (hc : c ≠ 47) :
+    GenP40.ParseVector (Spec.V4.header ++ c :: r) = .err eValue :=
+  (ofGo_err_iff GenParse40.dec40 _ _).mp ((v40 _).trans (C18.v40_header_then_junk c r hc))
 
 end ParseTie
